@@ -8,8 +8,8 @@ import (
 
 	"github.com/refraction-networking/conjure/internal/verifnd"
 	"github.com/refraction-networking/conjure/pkg/transports"
-	"golang.org/x/crypto/curve25519"
 	pb "github.com/refraction-networking/conjure/proto"
+	"golang.org/x/crypto/curve25519"
 )
 
 type verifReg struct {
@@ -19,15 +19,15 @@ type verifReg struct {
 	phantom net.IP
 }
 
-func (r *verifReg) SharedSecret() []byte              { return r.secret }
-func (r *verifReg) GetRegistrationAddress() string    { return "" }
-func (r *verifReg) GetDstPort() uint16                { return 443 }
-func (r *verifReg) PhantomIP() *net.IP                { return &r.phantom }
-func (r *verifReg) TransportType() pb.TransportType   { return r.tt }
-func (r *verifReg) TransportParams() any              { return r.params }
+func (r *verifReg) SharedSecret() []byte               { return r.secret }
+func (r *verifReg) GetRegistrationAddress() string     { return "" }
+func (r *verifReg) GetDstPort() uint16                 { return 443 }
+func (r *verifReg) PhantomIP() *net.IP                 { return &r.phantom }
+func (r *verifReg) TransportType() pb.TransportType    { return r.tt }
+func (r *verifReg) TransportParams() any               { return r.params }
 func (r *verifReg) SetTransportKeys(interface{}) error { return nil }
-func (r *verifReg) TransportKeys() interface{}        { return nil }
-func (r *verifReg) TransportReader() io.Reader        { return nil }
+func (r *verifReg) TransportKeys() interface{}         { return nil }
+func (r *verifReg) TransportReader() io.Reader         { return nil }
 
 // verifRM: any registry state that satisfies the representation invariant the
 // station's registry maintains (an entry is stored under its own phantom and
